@@ -186,19 +186,35 @@ DirNotCapture(D) == \A i, j \in DOMAIN D : i # j =>
 FsConsistent(F) == \A e1, e2 \in F : e1.path = e2.path => (e1.kind = e2.kind /\ (e1.kind = "file" => e1.owner = e2.owner))
 (* exactly the valid names are accepted (ns = the names handled so far) *)
 InvalidRejected(ns, A) == A = {i \in DOMAIN ns : Valid(ns[i])}
-(* the file system holds exactly what the accepted tasks create: a rejected task created nothing *)
+(* what the statement requires to exist below the root after the first n tasks: the directory and the two capture
+   files of every accepted task (fs, in the machine, holds exactly these entries) *)
 RECURSIVE FsOf(_, _)
 FsOf(ns, n) == IF n = 0 THEN {} ELSE FsOf(ns, n - 1) \cup (IF Valid(ns[n]) THEN Created(n, ns[n]) ELSE {})
+DirsOf(ns, n) == [j \in {j \in 1 .. n : Valid(ns[j])} |-> DirOf(ns[j])]
 Files(F) == {[path |-> e.path, owner |-> e.owner] : e \in {x \in F : x.kind = "file"}}
 DirPaths(F) == {e.path : e \in {x \in F : x.kind = "dir"}}
-SameFs(F, G) == Files(F) = Files(G) /\ DirPaths(F) = DirPaths(G)
+(* The statement says what the capture files contain and that they lie in a directory of the task's own; it does not
+   say that the task leaves nothing else there.  So, of a file system F found below the root (G = the required entries,
+   D = the directory of every accepted task):
+     - every required entry is there (a capture file with the tokens of its task only);
+     - anything else lies strictly below the directory of an accepted task, and on nobody's directory or capture path.
+   Hence a rejected task created nothing, and nothing appears next to the task directories. *)
+IsProperPrefix(p, q) == Len(p) < Len(q) /\ SubSeq(q, 1, Len(p)) = p
+Reserved(D) == UNION {{D[i], Append(D[i], <<"stdout">>), Append(D[i], <<"stderr">>)} : i \in DOMAIN D}
+ExtraAllowed(e, D) == /\ \E j \in DOMAIN D : IsProperPrefix(D[j], e.path)
+                      /\ e.path \notin Reserved(D)
+Required(e, G) == \/ e.kind = "file" /\ [path |-> e.path, owner |-> e.owner] \in Files(G)
+                  \/ e.kind = "dir" /\ e.path \in DirPaths(G)
+FsCovers(F, G, D) == /\ Files(G) \subseteq Files(F) /\ DirPaths(G) \subseteq DirPaths(F)
+                     /\ \A e \in F : Required(e, G) \/ ExtraAllowed(e, D)
 
 DirsNow == [i \in accepted |-> DirOf(names[i])]
 C19_DirBelowRoot  == op = "names" => DirBelowRoot(DirsNow)
 C19_DirInjective  == op = "names" => DirInjective(DirsNow)
 C19_DirNotCapture == op = "names" => DirNotCapture(DirsNow) /\ FsConsistent(fs)
 C19_Rejected      == op = "names" => /\ InvalidRejected(SubSeq(names, 1, k - 1), accepted)
-                                     /\ SameFs(fs, FsOf(names, k - 1))
+                                     /\ FsCovers(fs, FsOf(names, k - 1), DirsNow)
+                                     /\ DirsNow = DirsOf(names, k - 1)
                                      /\ \A e \in fs : e.owner \in accepted
 
 -----------------------------------------------------------------------------
